@@ -501,3 +501,13 @@ def replay(path, out):
         print("VIOLATION property=%s replay=%s" % (PROP, path))
         return 1
     return 0
+
+
+# ---- second part (added by the main session): the use of the coordinator by the agent runtime ----
+_run_primitive = run
+
+
+def run(tier, out):
+    _run_primitive(tier, out)
+    from checks import k_inactivity
+    k_inactivity.run_use(tier, out)
